@@ -826,8 +826,12 @@ def gen_truncation_cases(ctx):
                     zT(rest, [b'v=spf1 +all' if 'exp=' not in mech else b'truncated name']),
                     zT(full, [b'v=spf1 -all' if 'exp=' not in mech else b'full name']),
                     zA(rest, [hit]), zQ(rest, [hit]), zA(full, [V4[1]]), zQ(full, [V4[1]])]
-            out.append(spf_line('d0.example.com', sess(hit, (local + '@d0.example.com').encode()), zone))
-            ctx.count('zone:truncation')
+            line = spf_line('d0.example.com', sess(hit, (local + '@d0.example.com').encode()), zone)
+            out.append(line)
+            # the same case judged against the RFC 7208 evaluation as well (seeded change c11-m8: the limit became 255,
+            # the regenerated model followed it, only the reference evaluation knows that 253 is meant)
+            out.append('spfr ' + line[4:])
+            ctx.count('zone:truncation', 2)
     return out
 
 
